@@ -102,7 +102,7 @@ let events_of_obs (s : string) : event list * int =
 
 (* ---- symbolic tokens -------------------------------------------------- *)
 let zopt s = if s = "-" then None else Some (z_of_int (int_of_string s))
-let key_of_name s = bytes_of_hex (match s with "S" -> "53" | "O" -> "4f" | "X" -> "58" | "E" -> "45" | _ -> "3f")
+let key_of_name s = bytes_of_hex (match s with "S" -> "53" | "O" -> "4f" | "X" -> "58" | "E" -> "45" | "Q" -> "51" | _ -> "3f")
 let alg_of_name = function "HS256" -> HS256 | "HS384" -> HS384 | "HS512" -> HS512 | "RS256" -> RS256
                          | "none" -> AlgNone | _ -> AlgOther
 (* claims fields: iss exp nbf iat host ip at [sub] *)
@@ -428,6 +428,66 @@ let handle (fields : string list) : string * string =
     let m = if same = "1" then "file" else "nofile" in
     (m, if m = impl then "ok" else if impl = "file" then "fail:altered-session-cookie-accepted" else "fail:valid-cookie-refused")
   | "identity" :: _i :: impl :: [] -> ("same", if impl = "same" then "ok" else "fail:identity-not-restored")
+  | "download" :: mode :: hosts :: flags :: tmpl :: gw :: login :: user :: sub :: at :: cip :: oip :: param :: qterm :: pick :: live :: impl :: [] ->
+    let lst s = if s = "-" || s = "" then [] else List.map bytes_of_hex (split_on ',' s) in
+    let mode = bytes_of_hex mode and hosts = lst hosts and live = lst live in
+    let verify = flags.[2] = '1' in
+    let to_b str = List.map (fun c -> byte_of_int (Char.code c)) (List.of_seq (String.to_seq str)) in
+    let cfg = { d_mode = mode; d_hosts = hosts; d_split = flags.[0] = '1'; d_template = (if tmpl = "-" then [] else bytes_of_hex tmpl);
+                d_nousername = flags.[1] = '1'; d_gateway = bytes_of_hex gw; d_signing_key = List.init 32 (fun _ -> byte_of_int 0x53) } in
+    let qhost = if qterm = "-" then None else
+        Model.query_info (key_of_name "Q") (to_b "rdpgw-query") Z0 (jws_of_term qterm) in
+    let req = { q_authenticated = (login = "ok"); q_user = bytes_of_hex user; q_access_token = bytes_of_hex at;
+                q_client_ip = bytes_of_hex cip;
+                q_param = (match param with "none" -> None | "empty" -> Some [] | p -> Some (bytes_of_hex p));
+                q_qhost = qhost; q_pick = nat_of_int (int_of_string pick) } in
+    let m =
+      if login <> "ok" then "st=302" else
+        match Model.download cfg Z0 req with
+        | Dl500 -> "st=500"
+        | Dl400 -> "st=400"
+        | DlFile f ->
+          let opt = function None -> "none" | Some b -> hex_of_bytes b in
+          let (term, subc) = (match f.f_token with
+              | JCompact (_, _, c) ->
+                (Printf.sprintf "C:HS256:S:%s:%s:-:-:%s:%s:%s" (hex_of_bytes c.cl_iss)
+                   (match c.cl_exp with Some e -> string_of_int (int_of_z e) | None -> "-")
+                   (hex_of_bytes c.cl_host) (hex_of_bytes c.cl_ip) (hex_of_bytes c.cl_at), hex_of_bytes c.cl_sub)
+              | _ -> ("?", "?")) in
+          let idp a = if a = bytes_of_hex at then Some (bytes_of_hex sub) else None in
+          (* what the replaying client asks for: net.SplitHostPort of the file's address
+             (the whole string and port 0 when it does not split), re-joined by the gateway *)
+          let requested =
+            let a = String.concat "" (List.map (fun x -> String.make 1 (Char.chr (int_of_byte x))) f.f_address) in
+            let (h, p) =
+              (match String.rindex_opt a ':' with
+               | Some i when i + 1 < String.length a || true ->
+                 let hs = String.sub a 0 i and ps = String.sub a (i + 1) (String.length a - i - 1) in
+                 let hs' = if String.length hs >= 2 && hs.[0] = '[' && hs.[String.length hs - 1] = ']'
+                   then Some (String.sub hs 1 (String.length hs - 2))
+                   else if String.contains hs ':' || String.contains hs '[' || String.contains hs ']' then None else Some hs in
+                 (match hs', int_of_string_opt ps with
+                  | Some h, Some p when p >= 0 && p < 65536 -> (h, p)
+                  | Some h, None when ps = "" -> (h, 0)
+                  | _ -> (a, 0))
+               | _ -> (a, 0)) in
+            Model.join_host_port (List.map (fun c -> byte_of_int (Char.code c)) (List.of_seq (String.to_seq h))) (n_of_int p) in
+          let replay ip =
+            (* the model's signing key inside the token is the configured one: present it to check_paa *)
+            match Model.check_paa cfg.d_signing_key Z0 idp f.f_token with
+            | (PaaAccept (h, i, u), _) ->
+              let t = { t_target = h; t_remote = i; t_user = u } in
+              if Model.wired_policy true verify mode hosts t ip requested
+              then (if List.mem requested live then "0,0" else Printf.sprintf "0,%d" (int_of_n Model.e_PROXY_INTERNALERROR))
+              else Printf.sprintf "0,%d" (int_of_n Model.e_PROXY_RAP_ACCESSDENIED)
+            | _ -> Printf.sprintf "%d,-" (int_of_n Model.e_PROXY_COOKIE_AUTHENTICATION_ACCESS_DENIED) in
+          Printf.sprintf "st=200 addr=%s user=%s domain=%s gw=%s tok=%s sub=%s forced=ok same=%s other=%s"
+            (hex_of_bytes f.f_address) (opt f.f_username) (opt f.f_domain) (hex_of_bytes f.f_gateway) term subc
+            (replay (bytes_of_hex cip)) (replay (bytes_of_hex oip)) in
+    (m, if m = impl then "ok"
+        else if String.length impl >= 6 && String.sub impl 0 6 = "st=200" && (String.length m < 6 || String.sub m 0 6 <> "st=200")
+        then "fail:connection-file-issued-against-the-specification"
+        else "fail:download-differs")
   | k :: _ -> failwith ("unknown kind " ^ k)
   | [] -> failwith "empty line"
 
